@@ -39,6 +39,7 @@ fn prog(name: &str, setup: Vec<TOp>, threads: Vec<Vec<TOp>>) -> Arc<Prog> {
         final_directory: false,
         fault_budget: None,
         fault_skip: 0,
+        pre_wal_puts: 0,
         judge_under_fault: false,
     })
 }
@@ -150,6 +151,7 @@ pub fn c06_programs() -> Vec<Arc<Prog>> {
             final_directory: false,
             fault_budget: None,
             fault_skip: 0,
+            pre_wal_puts: 0,
             judge_under_fault: false,
         })
     };
@@ -398,6 +400,7 @@ pub fn c03_programs() -> Vec<Arc<Prog>> {
             final_directory: false,
             fault_budget: None,
             fault_skip: 0,
+            pre_wal_puts: 0,
             judge_under_fault: false,
         })
     };
@@ -451,6 +454,7 @@ pub fn levels_programs() -> Vec<Arc<Prog>> {
             final_directory: true,
             fault_budget: None,
             fault_skip: 0,
+            pre_wal_puts: 0,
             judge_under_fault: false,
         })
     };
@@ -479,6 +483,7 @@ pub fn c09_programs() -> Vec<Arc<Prog>> {
             final_directory: false,
             fault_budget: None,
             fault_skip: 0,
+            pre_wal_puts: 0,
             judge_under_fault: false,
         })
     };
@@ -532,6 +537,7 @@ pub fn c11_removal_programs() -> Vec<Arc<Prog>> {
             final_directory: false,
             fault_budget: None,
             fault_skip: 0,
+            pre_wal_puts: 0,
             judge_under_fault: false,
         })
     };
@@ -570,6 +576,7 @@ pub fn c11_fault_programs() -> Vec<Arc<Prog>> {
             final_directory: true,
             fault_budget: None,
             fault_skip: 0,
+            pre_wal_puts: 0,
             judge_under_fault: false,
         })
     };
@@ -620,6 +627,7 @@ pub fn c08_concurrent_programs() -> Vec<Arc<Prog>> {
             final_directory: false,
             fault_budget: budget,
             fault_skip: 0,
+            pre_wal_puts: 0,
             judge_under_fault: true,
         })
     };
@@ -714,6 +722,7 @@ pub fn c02_multiwriter_programs() -> Vec<Arc<Prog>> {
             final_directory: false,
             fault_budget: None,
             fault_skip: 0,
+            pre_wal_puts: 0,
             judge_under_fault: false,
         })
     };
@@ -755,6 +764,7 @@ pub fn c09_fault_programs() -> Vec<Arc<Prog>> {
             final_directory: false,
             fault_budget: None,
             fault_skip: 0,
+            pre_wal_puts: 0,
             judge_under_fault: false,
         })
     };
@@ -765,5 +775,41 @@ pub fn c09_fault_programs() -> Vec<Arc<Prog>> {
         p("manifest-fails: w+w||w", vec![Put(0, 1, 8)], vec![vec![Put(1, 2, 8), Put(0, 3, 8)], vec![Put(1, 4, 8)]], (class::WRITE, ".manifest")),
         p("wal-create-fails: w+w||w", vec![Put(0, 1, 8)], vec![vec![Put(1, 2, 8), Put(0, 3, 8)], vec![Put(1, 4, 8)]], (class::CREATE, ".log")),
         p("wal-write-fails: w||w||get", vec![Put(0, 1, 8)], vec![vec![Put(1, 2, 8)], vec![Put(0, 3, 8)], vec![Get(0)]], (class::WRITE, ".log")),
+    ]
+    .into_iter()
+    .chain(l0_stop_programs())
+    .collect()
+}
+
+/// A writer parked on the level-0 stop trigger (>= 12 level-0 files, produced by recovering a
+/// long WAL with a tiny memtable without log reuse) while the compaction that should relieve
+/// level 0 fails: the writer has to be released with the error.
+pub fn l0_stop_programs() -> Vec<Arc<Prog>> {
+    use crate::vfs::class;
+    let p = |name: &str, threads: Vec<Vec<TOp>>, fault: Option<(u32, &'static str)>| {
+        Arc::new(Prog {
+            name: name.to_string(),
+            cfg: Cfg::new(ROT_MEMTABLE, 300, 16, false),
+            keys: kab(),
+            setup: vec![],
+            threads,
+            strict_unlink: false,
+            fs_switch: false,
+            recover_at_removals: false,
+            recover_at_meta: false,
+            recover_at_all_writes: false,
+            fault,
+            fault_thread: None,
+            final_directory: false,
+            fault_budget: None,
+            fault_skip: 0,
+            pre_wal_puts: 14,
+            judge_under_fault: false,
+        })
+    };
+    vec![
+        p("l0-stop relieved by the compaction: w+w+w||get", vec![vec![Put(0, 1, 8), Put(1, 2, 8), Put(0, 3, 8)], vec![Get(0)]], None),
+        p("l0-stop, compaction output cannot be created: w+w+w||get", vec![vec![Put(0, 1, 8), Put(1, 2, 8), Put(0, 3, 8)], vec![Get(0)]], Some((class::CREATE, ".rdb"))),
+        p("l0-stop, manifest write fails: w+w+w||w", vec![vec![Put(0, 1, 8), Put(1, 2, 8), Put(0, 3, 8)], vec![Put(1, 4, 8)]], Some((class::WRITE, ".manifest"))),
     ]
 }
